@@ -7,6 +7,7 @@ from core import proto
 from .common import case, guarded, rand_weak_order
 
 ID = "C07"
+COVER_FILES = ['properties/pairwisecomparisons.py', 'instances/convert.py']
 RULE = ("exhaustive: every profile over alternatives {1..m}, m <= 3, made of 1 or 2 distinct ballots (ordered pairs of "
         "ballots: dict insertion order matters to the code) where a ballot is any weak order of any non-empty subset of "
         "the alternatives (so alternatives may be tied or unranked), multiplicities in {1,2}; data type = the type "
